@@ -362,8 +362,14 @@ impl Debugger {
 
             Command::StepOver => {
                 Self::check_halt(instr)?;
-                self.status = Status::StepOver {
-                    return_addr: state.pc() + 1,
+                // Only a subroutine call is stepped *over*
+                // Any other instruction (which may jump elsewhere) is a single step
+                self.status = if Self::is_subroutine_call(state.mem(state.pc())) {
+                    Status::StepOver {
+                        return_addr: state.pc().wrapping_add(1),
+                    }
+                } else {
+                    Status::StepInto { count: 0 }
                 };
                 self.should_echo_pc = true;
             }
@@ -534,6 +540,15 @@ impl Debugger {
         }
 
         None
+    }
+
+    /// Whether instruction is `JSR`, `JSRR`, or `CALL`.
+    fn is_subroutine_call(instr: u16) -> bool {
+        match instr >> 12 {
+            0x4 => true,
+            0xD => (instr >> 10) & 0b11 == 0b11,
+            _ => false,
+        }
     }
 
     /// If instruction is `HALT`, then warn and return `None`.
